@@ -480,7 +480,9 @@ package keyvalue
 //@   ensures "n-range" 0 <= n && n <= old(blob.blobLen(p))
 //@   ensures "fail-unchanged" implies(err != nil && n == 0 && (old(fIsDir(f)) || off < 0 || old(hDataErr(f)) != nil), implies(old(hDataErr(f)) == nil, sameContent(old(hData(f)))))
 //@   ensures "inv" fileInv(f) && f.offset == old(f.offset) && f.closed == old(f.closed)
-//@   ensures "accepted" [C14] implies(err == nil && n > 0 && isSerial(f.fileData.fs), old(storeSetErr(fsStore(f.fileData.fs), f.fileData.path, f.fileData)) == nil)
+//@   ensures "accepted" [C14] implies(err == nil && n > 0 && isSerial(f.fileData.fs), old(storeGetErr(fsStore(f.fileData.fs), f.fileData.path)) == nil &&
+//@                     old(retW("keyvalue.(Store).Set", 0, storeGetW(fsStore(f.fileData.fs), f.fileData.path), fsStore(f.fileData.fs), nil, f.fileData.path, f.fileData)) == nil ||
+//@                     errIs(old(storeGetErr(fsStore(f.fileData.fs), f.fileData.path)), hackpadfs.ErrNotExist))
 //@   ensures "namespace" [C17 C03] implies(isMem(f.fileData.fs), memSameExcept(f.fileData.fs, f.fileData.path))
 //@   ensures "no-resurrect" [C17] implies(isMem(f.fileData.fs) && !old(kvHas(f.fileData.fs, f.fileData.path)), !kvHas(f.fileData.fs, f.fileData.path))
 //@   nopanic
